@@ -501,4 +501,1244 @@ Run::setup()
   return Result::pass();
 }
 
-// @@NEXT@@
+// ---- whole-data read back -------------------------------------------------------------------------
+Result
+Run::read_all(ProjData& r, int path, std::vector<float>& got, const std::string& after)
+{
+  const Geo& g = geo();
+  got.assign(g.n, std::numeric_limits<float>::quiet_NaN());
+  const std::string where = vf::cat(after, " [read back through ", path_names[path], "]");
+  if (path == P_ITER && !dynamic_cast<ProjDataInMemory*>(&r))
+    path = P_COPY_TO;
+  if (path == P_ITER && iter_pos_to_idx.empty())
+    path = P_COPY_TO;
+  switch (path)
+    {
+    case P_BIN:
+      for (int s = g.min_seg; s <= g.max_seg; ++s)
+        for (int a = g.minax(s); a <= g.maxax(s); ++a)
+          for (int v = g.min_view; v <= g.max_view; ++v)
+            for (int t = g.min_tang; t <= g.max_tang; ++t)
+              for (int k = g.min_tof; k <= g.max_tof; ++k)
+                got[g.idx(s, a, v, t, k)] = get_bin(r, Bin(s, v, a, t, k));
+      break;
+    case P_VIEWGRAM:
+    case P_RELATED:
+      for (int k = g.min_tof; k <= g.max_tof; ++k)
+        for (int s = g.min_seg; s <= g.max_seg; ++s)
+          for (int v = g.min_view; v <= g.max_view; ++v)
+            {
+              if (path == P_VIEWGRAM)
+                {
+                  const Viewgram<float> vg_ = (v + s + k) % 2 ? r.get_viewgram(v, s, false, k) : r.get_viewgram(ViewgramIndices(v, s, k));
+                  VF_CHECK(vg_.get_view_num() == v && vg_.get_segment_num() == s && vg_.get_timing_pos_num() == k, where,
+                           ": viewgram labelled (view=", vg_.get_view_num(), ",seg=", vg_.get_segment_num(), ",tof=", vg_.get_timing_pos_num(),
+                           ") returned for (", v, ",", s, ",", k, ")");
+                  VF_CHECK(vg_.get_min_axial_pos_num() == g.minax(s) && vg_.get_max_axial_pos_num() == g.maxax(s)
+                               && vg_.get_min_tangential_pos_num() == g.min_tang && vg_.get_max_tangential_pos_num() == g.max_tang,
+                           where, ": viewgram index ranges");
+                  for (int a = g.minax(s); a <= g.maxax(s); ++a)
+                    for (int t = g.min_tang; t <= g.max_tang; ++t)
+                      got[g.idx(s, a, v, t, k)] = vg_[a][t];
+                }
+              else
+                {
+                  // every bin is visited through the related set of its own viewgram (sets overlap; all must agree)
+                  ViewgramIndices basic(v, s, k);
+                  symm->find_basic_view_segment_numbers(basic);
+                  basic.timing_pos_num() = k;
+                  if (!(basic == ViewgramIndices(v, s, k)))
+                    continue; // read when its basic viewgram comes along
+                  const RelatedViewgrams<float> rv = r.get_related_viewgrams(basic, symm, false, k);
+                  for (auto it = rv.begin(); it != rv.end(); ++it)
+                    {
+                      const int vv = it->get_view_num(), sv = it->get_segment_num();
+                      VF_CHECK(it->get_timing_pos_num() == k, where, ": related viewgram has TOF index ", it->get_timing_pos_num(),
+                               ", asked for ", k);
+                      VF_CHECK(sv >= g.min_seg && sv <= g.max_seg && vv >= g.min_view && vv <= g.max_view, where,
+                               ": related viewgram outside the data");
+                      for (int a = g.minax(sv); a <= g.maxax(sv); ++a)
+                        for (int t = g.min_tang; t <= g.max_tang; ++t)
+                          got[g.idx(sv, a, vv, t, k)] = (*it)[a][t];
+                    }
+                }
+            }
+      break;
+    case P_SINOGRAM:
+      for (int k = g.min_tof; k <= g.max_tof; ++k)
+        for (int s = g.min_seg; s <= g.max_seg; ++s)
+          for (int a = g.minax(s); a <= g.maxax(s); ++a)
+            {
+              const Sinogram<float> sn = (a + s + k) % 2 ? r.get_sinogram(a, s, false, k) : r.get_sinogram(SinogramIndices(a, s, k));
+              VF_CHECK(sn.get_axial_pos_num() == a && sn.get_segment_num() == s && sn.get_timing_pos_num() == k, where,
+                       ": sinogram labelled differently from the request");
+              VF_CHECK(sn.get_min_view_num() == g.min_view && sn.get_max_view_num() == g.max_view
+                           && sn.get_min_tangential_pos_num() == g.min_tang && sn.get_max_tangential_pos_num() == g.max_tang,
+                       where, ": sinogram index ranges");
+              for (int v = g.min_view; v <= g.max_view; ++v)
+                for (int t = g.min_tang; t <= g.max_tang; ++t)
+                  got[g.idx(s, a, v, t, k)] = sn[v][t];
+            }
+      break;
+    case P_SEG_VIEW:
+      for (int k = g.min_tof; k <= g.max_tof; ++k)
+        for (int s = g.min_seg; s <= g.max_seg; ++s)
+          {
+            const SegmentByView<float> sg = (s + k) % 2 ? r.get_segment_by_view(s, k) : r.get_segment_by_view(SegmentIndices(s, k));
+            VF_CHECK(sg.get_segment_num() == s && sg.get_timing_pos_num() == k, where, ": segment labelled differently from the request");
+            VF_CHECK(sg.get_min_view_num() == g.min_view && sg.get_max_view_num() == g.max_view && sg.get_min_axial_pos_num() == g.minax(s)
+                         && sg.get_max_axial_pos_num() == g.maxax(s) && sg.get_min_tangential_pos_num() == g.min_tang
+                         && sg.get_max_tangential_pos_num() == g.max_tang,
+                     where, ": segment-by-view index ranges");
+            for (int v = g.min_view; v <= g.max_view; ++v)
+              for (int a = g.minax(s); a <= g.maxax(s); ++a)
+                for (int t = g.min_tang; t <= g.max_tang; ++t)
+                  got[g.idx(s, a, v, t, k)] = sg[v][a][t];
+          }
+      break;
+    case P_SEG_SINO:
+      for (int k = g.min_tof; k <= g.max_tof; ++k)
+        for (int s = g.min_seg; s <= g.max_seg; ++s)
+          {
+            const SegmentBySinogram<float> sg
+                = (s + k) % 2 ? r.get_segment_by_sinogram(s, k) : r.get_segment_by_sinogram(SegmentIndices(s, k));
+            VF_CHECK(sg.get_segment_num() == s && sg.get_timing_pos_num() == k, where, ": segment labelled differently from the request");
+            VF_CHECK(sg.get_min_view_num() == g.min_view && sg.get_max_view_num() == g.max_view && sg.get_min_axial_pos_num() == g.minax(s)
+                         && sg.get_max_axial_pos_num() == g.maxax(s) && sg.get_min_tangential_pos_num() == g.min_tang
+                         && sg.get_max_tangential_pos_num() == g.max_tang,
+                     where, ": segment-by-sinogram index ranges");
+            for (int a = g.minax(s); a <= g.maxax(s); ++a)
+              for (int v = g.min_view; v <= g.max_view; ++v)
+                for (int t = g.min_tang; t <= g.max_tang; ++t)
+                  got[g.idx(s, a, v, t, k)] = sg[a][v][t];
+          }
+      break;
+    case P_COPY_TO: {
+      // documented order (ProjData.h:303-311): TOF slowest (from - to +), standard segment sequence, SegmentBySinogram
+      std::vector<float> flat(g.n + 4, -777.F);
+      auto end = r.copy_to(flat.begin());
+      VF_CHECK(std::size_t(end - flat.begin()) == g.n, where, ": copy_to advanced the iterator by ", long(end - flat.begin()), " of ", g.n);
+      std::size_t p = 0;
+      for (int k = g.min_tof; k <= g.max_tof; ++k)
+        for (int s : standard_sequence(g))
+          for (int a = g.minax(s); a <= g.maxax(s); ++a)
+            for (int v = g.min_view; v <= g.max_view; ++v)
+              for (int t = g.min_tang; t <= g.max_tang; ++t)
+                got[g.idx(s, a, v, t, k)] = flat[p++];
+      for (std::size_t q = g.n; q < flat.size(); ++q)
+        VF_CHECK(flat[q] == -777.F, where, ": copy_to wrote beyond the advertised end");
+      break;
+    }
+    case P_ITER: {
+      const ProjDataInMemory& m = dynamic_cast<const ProjDataInMemory&>(r);
+      std::size_t p = 0;
+      for (auto it = m.begin_all(); it != m.end_all(); ++it, ++p)
+        {
+          VF_CHECK(p < g.n, where, ": iteration visits more than size_all() elements");
+          got[iter_pos_to_idx[p]] = *it;
+        }
+      VF_CHECK(p == g.n, where, ": iteration visited ", p, " of ", g.n, " elements");
+      break;
+    }
+    default:
+      throw std::logic_error("C02 harness: bad path");
+    }
+  return Result::pass();
+}
+
+Result
+Run::compare_all(int sel, const std::string& after)
+{
+  const Geo& g = geo();
+  int path = sel % N_PATHS;
+  bool second = (sel / N_PATHS) % 3 == 0; // a third of the read-backs use a second object on the same file
+  if (!readable)
+    second = true;
+  if (second && !can_second_reader())
+    {
+      if (!readable)
+        {
+          vf::stats().count("read-back skipped (write-only data, not flushed: excluded L3)");
+          return Result::pass();
+        }
+      second = false;
+    }
+  shared_ptr<ProjData> other;
+  ProjData* r = pd.get();
+  std::string how = after;
+  if (second)
+    {
+      other = second_reader();
+      r = other.get();
+      how += " [second object from read_from_file]";
+      vf::stats().count("read-backs through a second object on the same file");
+    }
+  std::vector<float> got;
+  C02_TRY(read_all(*r, path, got, how));
+  VF_CHECK(r->size_all() == g.n, how, ": size_all() ", r->size_all(), " expected ", g.n);
+  for (int s = g.min_seg; s <= g.max_seg; ++s)
+    for (int a = g.minax(s); a <= g.maxax(s); ++a)
+      for (int v = g.min_view; v <= g.max_view; ++v)
+        for (int t = g.min_tang; t <= g.max_tang; ++t)
+          for (int k = g.min_tof; k <= g.max_tof; ++k)
+            {
+              const std::size_t i = g.idx(s, a, v, t, k);
+              if (!(got[i] == ref[i]))
+                return Result::fail(vf::cat(how, " through ", path_names[path], ": bin ", g.name(s, a, v, t, k), " reads ", got[i],
+                                            ", reference has ", ref[i], " (backing ", backing_names[backing], ", order ", L.order,
+                                            ", type ", L.td().name, ", scale ", L.scale, ")"));
+            }
+  vf::stats().count(std::string("full read-backs via ") + path_names[path]);
+  return Result::pass();
+}
+
+// ---- the independent reader of the raw bytes ----------------------------------------------------
+Result
+Run::check_bytes(const std::string& after)
+{
+  if (!stream_backed)
+    return Result::pass();
+  if (unflushed)
+    {
+      vf::stats().count("byte-level check skipped (excluded L3: set_bin_value does not flush)");
+      return Result::pass();
+    }
+  const Geo& g = geo();
+  std::string bytes;
+  if (backing == B_SSTREAM)
+    bytes = ss->str();
+  else
+    {
+      // a different stream object on the same file while the writer is alive and unclosed
+      std::ifstream f(data_path.c_str(), std::ios::binary);
+      VF_CHECK(bool(f), after, ": independent reader cannot open ", data_path);
+      std::ostringstream o;
+      o << f.rdbuf();
+      bytes = o.str();
+    }
+  const std::size_t expect = std::size_t(L.offset) + g.n * L.elsize() + (prefilled ? std::size_t(NGUARD) : 0);
+  VF_CHECK(bytes.size() == expect, after, ": independent reader sees ", bytes.size(), " bytes in the data stream, expected ", expect,
+           " (backing ", backing_names[backing], ")");
+  const unsigned char* p = reinterpret_cast<const unsigned char*>(bytes.data());
+  for (long i = 0; i < L.offset; ++i)
+    VF_CHECK(p[i] == PRE, after, ": byte ", i, " in front of the data (stream offset ", L.offset, ") was overwritten");
+  if (prefilled)
+    for (int i = 0; i < NGUARD; ++i)
+      VF_CHECK(p[expect - NGUARD + std::size_t(i)] == GUARD, after, ": byte ", i, " behind the data was overwritten");
+  for (int s = g.min_seg; s <= g.max_seg; ++s)
+    for (int a = g.minax(s); a <= g.maxax(s); ++a)
+      for (int v = g.min_view; v <= g.max_view; ++v)
+        for (int t = g.min_tang; t <= g.max_tang; ++t)
+          for (int k = g.min_tof; k <= g.max_tof; ++k)
+            {
+              const std::size_t pos = c02::byte_pos(g, L, s, a, v, t, k);
+              const float f = c02::decode(p + pos, L);
+              if (!(f == ref[g.idx(s, a, v, t, k)]))
+                return Result::fail(vf::cat(after, ": independent reader of the data stream finds ", f, " for bin ", g.name(s, a, v, t, k),
+                                            " at byte ", pos, ", reference has ", ref[g.idx(s, a, v, t, k)], " (backing ",
+                                            backing_names[backing], ", order ", L.order, ", type ", L.td().name,
+                                            L.big_endian ? " big-endian" : " little-endian", ", scale ", L.scale, ", offset ", L.offset,
+                                            ") - not flushed or wrong layout"));
+            }
+  vf::stats().count("byte-level checks of the data stream");
+  return Result::pass();
+}
+
+Result
+Run::after_write(const json& op, const std::string& what)
+{
+  ++nwrites;
+  C02_TRY(check_bytes(what));
+  return compare_all(op[7].get<int>(), what);
+}
+
+// ---- iteration order of ProjDataInMemory::begin_all() ----------------------------------------------
+// The class does not document the order in which begin_all() visits the bins.  The property only needs the
+// iteration to be a fixed bijection onto the bins: it is learned once (distinct values written through the
+// iterator, bins identified through get_sinogram) and must then stay the same for the rest of the history.
+Result
+Run::learn_iteration_order(const std::string& tag)
+{
+  const Geo& g = geo();
+  std::size_t p = 0;
+  for (auto it = mem->begin_all(); it != mem->end_all(); ++it, ++p)
+    {
+      VF_CHECK(p < g.n, tag, ": iteration visits more than size_all() elements");
+      *it = float(p + 1);
+    }
+  VF_CHECK(p == g.n, tag, ": begin_all()..end_all() visits ", p, " of ", g.n, " elements");
+  std::vector<std::size_t> map(g.n, g.n);
+  std::vector<char> hit(g.n, 0);
+  for (int k = g.min_tof; k <= g.max_tof; ++k)
+    for (int s = g.min_seg; s <= g.max_seg; ++s)
+      for (int a = g.minax(s); a <= g.maxax(s); ++a)
+        {
+          const Sinogram<float> sn = mem->get_sinogram(a, s, false, k);
+          for (int v = g.min_view; v <= g.max_view; ++v)
+            for (int t = g.min_tang; t <= g.max_tang; ++t)
+              {
+                const float x = sn[v][t];
+                const long q = long(x) - 1;
+                VF_CHECK(q >= 0 && std::size_t(q) < g.n && float(q + 1) == x, tag, ": bin ", g.name(s, a, v, t, k), " reads ", x,
+                         " which was not written through the iterator");
+                VF_CHECK(!hit[std::size_t(q)], tag, ": element ", q, " of the iteration shows up in two bins (second: ", g.name(s, a, v, t, k), ")");
+                hit[std::size_t(q)] = 1;
+                map[std::size_t(q)] = g.idx(s, a, v, t, k);
+              }
+        }
+  iter_pos_to_idx = map;
+  for (std::size_t q = 0; q < g.n; ++q)
+    ref[map[q]] = float(q + 1);
+  // informational: does the order coincide with the documented copy_to() order?
+  {
+    std::size_t q = 0;
+    bool same = true;
+    for (int k = g.min_tof; k <= g.max_tof && same; ++k)
+      for (int s : standard_sequence(g))
+        for (int a = g.minax(s); a <= g.maxax(s); ++a)
+          for (int v = g.min_view; v <= g.max_view; ++v)
+            for (int t = g.min_tang; t <= g.max_tang; ++t)
+              same = same && map[q++] == g.idx(s, a, v, t, k);
+    vf::stats().count(same ? "begin_all order equals copy_to order" : "begin_all order differs from copy_to order");
+  }
+  return Result::pass();
+}
+
+// build a second projection data object with generated contents (source of fill(ProjData))
+struct OtherData
+{
+  shared_ptr<ProjData> p;
+  shared_ptr<std::stringstream> ss;
+};
+
+Result
+Run::run_op(const json& op, std::size_t opno)
+{
+  const Geo& g = geo();
+  const int code = op[0].get<int>();
+  const long A = op[1].get<long>(), B = op[2].get<long>(), C = op[3].get<long>(), D = op[4].get<long>(), E = op[5].get<long>();
+  const long V = op[6].get<long>();
+  const int s = g.min_seg + int(A % g.nseg());
+  const int a = g.minax(s) + int(B % g.nax(s));
+  const int v = g.min_view + int(C % g.nviews());
+  const int t = g.min_tang + int(D % g.ntang());
+  const int k = g.min_tof + int(E % g.ntof());
+  vf::SplitMix rng(c["seed"].get<uint64_t>() * 1000003ULL + uint64_t(V) * 7919ULL + opno);
+  const std::string tag = vf::cat("op#", opno, " code ", code);
+  vf::stats().count(vf::cat("op ", code < 10 ? "0" : "", code));
+  // reads go through the object itself, or through a second object on the same file for write-only data
+  shared_ptr<ProjData> other_reader;
+  auto reader = [&]() -> ProjData* {
+    if (readable)
+      return pd.get();
+    if (!can_second_reader())
+      return nullptr;
+    other_reader = second_reader();
+    return other_reader.get();
+  };
+
+  switch (code)
+    {
+    // ------------------------------------------------------------------ writes
+    case W_BIN: {
+      // N1 (notes): ProjDataFromStream::set_bin_value ignores the object's scale factor
+      if (stream_backed && L.scale != 1.F && !no_exclude())
+        {
+          vf::stats().excluded_known++;
+          vf::stats().count("excluded N1: set_bin_value with scale factor != 1");
+          return Result::pass();
+        }
+      const float x = value(rng);
+      set_bin(Bin(s, v, a, t, k, x));
+      ref[g.idx(s, a, v, t, k)] = x;
+      // L3 (notes): no flush in ProjDataFromStream::set_bin_value; when excluded, file-level checks wait for the next flush
+      if (file_backed() && !no_exclude())
+        {
+          unflushed = true;
+          vf::stats().excluded_known++;
+        }
+      return after_write(op, vf::cat(tag, " set_bin_value", g.name(s, a, v, t, k), "=", x));
+    }
+    case W_VIEWGRAM: {
+      Viewgram<float> vw = V % 2 ? pd->get_empty_viewgram(v, s, false, k) : Viewgram<float>(pdi, ViewgramIndices(v, s, k));
+      for (int aa = g.minax(s); aa <= g.maxax(s); ++aa)
+        for (int tt = g.min_tang; tt <= g.max_tang; ++tt)
+          ref[g.idx(s, aa, v, tt, k)] = vw[aa][tt] = value(rng);
+      VF_CHECK(pd->set_viewgram(vw) == Succeeded::yes, tag, " set_viewgram returned Succeeded::no");
+      unflushed = false; // documented flush (ProjDataFromStream.cxx:396)
+      return after_write(op, vf::cat(tag, " set_viewgram(view=", v, ",seg=", s, ",tof=", k, ")"));
+    }
+    case W_SINOGRAM: {
+      Sinogram<float> sn = V % 2 ? pd->get_empty_sinogram(a, s, false, k) : Sinogram<float>(pdi, SinogramIndices(a, s, k));
+      for (int vv = g.min_view; vv <= g.max_view; ++vv)
+        for (int tt = g.min_tang; tt <= g.max_tang; ++tt)
+          ref[g.idx(s, a, vv, tt, k)] = sn[vv][tt] = value(rng);
+      VF_CHECK(pd->set_sinogram(sn) == Succeeded::yes, tag, " set_sinogram returned Succeeded::no");
+      unflushed = false;
+      return after_write(op, vf::cat(tag, " set_sinogram(ax=", a, ",seg=", s, ",tof=", k, ")"));
+    }
+    case W_SEG_VIEW: {
+      SegmentByView<float> sg = pd->get_empty_segment_by_view(s, false, k);
+      for (int vv = g.min_view; vv <= g.max_view; ++vv)
+        for (int aa = g.minax(s); aa <= g.maxax(s); ++aa)
+          for (int tt = g.min_tang; tt <= g.max_tang; ++tt)
+            ref[g.idx(s, aa, vv, tt, k)] = sg[vv][aa][tt] = value(rng);
+      VF_CHECK(pd->set_segment(sg) == Succeeded::yes, tag, " set_segment(by view) returned Succeeded::no");
+      unflushed = false;
+      return after_write(op, vf::cat(tag, " set_segment by view(seg=", s, ",tof=", k, ")"));
+    }
+    case W_SEG_SINO: {
+      SegmentBySinogram<float> sg = pd->get_empty_segment_by_sinogram(s, false, k);
+      for (int aa = g.minax(s); aa <= g.maxax(s); ++aa)
+        for (int vv = g.min_view; vv <= g.max_view; ++vv)
+          for (int tt = g.min_tang; tt <= g.max_tang; ++tt)
+            ref[g.idx(s, aa, vv, tt, k)] = sg[aa][vv][tt] = value(rng);
+      VF_CHECK(pd->set_segment(sg) == Succeeded::yes, tag, " set_segment(by sinogram) returned Succeeded::no");
+      unflushed = false;
+      return after_write(op, vf::cat(tag, " set_segment by sinogram(seg=", s, ",tof=", k, ")"));
+    }
+    case W_RELATED: {
+      ViewgramIndices basic(v, s, k);
+      symm->find_basic_view_segment_numbers(basic);
+      basic.timing_pos_num() = k;
+      RelatedViewgrams<float> rv = pd->get_empty_related_viewgrams(basic, symm, false, k);
+      std::vector<ViewgramIndices> seen;
+      for (auto it = rv.begin(); it != rv.end(); ++it)
+        {
+          const int vv = it->get_view_num(), sv = it->get_segment_num();
+          VF_CHECK(it->get_timing_pos_num() == k, tag, ": empty related viewgram has TOF index ", it->get_timing_pos_num(), ", asked for ", k);
+          VF_CHECK(sv >= g.min_seg && sv <= g.max_seg && vv >= g.min_view && vv <= g.max_view, tag, ": related viewgram outside the data");
+          VF_CHECK(std::find(seen.begin(), seen.end(), it->get_viewgram_indices()) == seen.end(), tag, ": related set lists a viewgram twice");
+          seen.push_back(it->get_viewgram_indices());
+          for (int aa = g.minax(sv); aa <= g.maxax(sv); ++aa)
+            for (int tt = g.min_tang; tt <= g.max_tang; ++tt)
+              ref[g.idx(sv, aa, vv, tt, k)] = (*it)[aa][tt] = value(rng);
+        }
+      VF_CHECK(pd->set_related_viewgrams(rv) == Succeeded::yes, tag, " set_related_viewgrams returned Succeeded::no");
+      unflushed = false;
+      vf::stats().count(symm_is_pet ? "related viewgram ops with PET symmetries" : "related viewgram ops with trivial symmetries");
+      vf::stats().maxi("max related viewgrams in one set", double(seen.size()));
+      return after_write(op, vf::cat(tag, " set_related_viewgrams(basic view=", basic.view_num(), ",seg=", basic.segment_num(), ",tof=", k, ")"));
+    }
+    case W_FILL_VALUE: {
+      const float x = value(rng);
+      pd->fill(x);
+      std::fill(ref.begin(), ref.end(), x);
+      unflushed = false;
+      return after_write(op, vf::cat(tag, " fill(", x, ")"));
+    }
+    case W_FILL_OTHER: {
+      // source: in memory with the same info; in memory with a larger segment range ("the source can have more",
+      // ProjData.h:251-254); or a stream with the other storage order and a reversed segment sequence
+      shared_ptr<ProjDataInfo> src_info = pdi;
+      int kind = int(V % 3);
+      if (kind == 1)
+        {
+          shared_ptr<ProjDataInfo> full = vg::make_pdi(scanner, [&] {
+            json j = c["pdi"];
+            if (j["trim"].contains("max_seg"))
+              j["trim"]["max_seg"] = 1000;
+            return j;
+          }());
+          if (full->get_max_segment_num() > g.max_seg)
+            src_info = full;
+          else
+            kind = 0;
+        }
+      const Geo sg_(*src_info);
+      shared_ptr<ProjData> src;
+      shared_ptr<std::stringstream> sss;
+      if (kind == 2)
+        {
+          sss.reset(new std::stringstream(std::ios::in | std::ios::out | std::ios::binary));
+          *sss << std::string(sg_.n * sizeof(float), '\0');
+          std::vector<int> seq = L.seq;
+          std::reverse(seq.begin(), seq.end());
+          src.reset(new ProjDataFromStream(exam, src_info, sss, 0, seq,
+                                           L.order == 0 ? ProjDataFromStream::Segment_AxialPos_View_TangPos
+                                                        : ProjDataFromStream::Segment_View_AxialPos_TangPos));
+        }
+      else
+        src.reset(new ProjDataInMemory(exam, src_info));
+      for (int kk = sg_.min_tof; kk <= sg_.max_tof; ++kk)
+        for (int s2 = sg_.min_seg; s2 <= sg_.max_seg; ++s2)
+          {
+            SegmentBySinogram<float> sg = src->get_empty_segment_by_sinogram(s2, false, kk);
+            for (int aa = sg_.minax(s2); aa <= sg_.maxax(s2); ++aa)
+              for (int vv = sg_.min_view; vv <= sg_.max_view; ++vv)
+                for (int tt = sg_.min_tang; tt <= sg_.max_tang; ++tt)
+                  {
+                    const float x = value(rng);
+                    sg[aa][vv][tt] = x;
+                    if (s2 >= g.min_seg && s2 <= g.max_seg)
+                      ref[g.idx(s2, aa, vv, tt, kk)] = x;
+                  }
+            if (src->set_segment(sg) != Succeeded::yes)
+              return Result::fail(tag + " preparing the source of fill(ProjData): set_segment failed");
+          }
+      pd->fill(*src);
+      unflushed = false;
+      vf::stats().count(vf::cat("fill(ProjData) source kind ", kind));
+      return after_write(op, vf::cat(tag, " fill(ProjData) source kind ", kind));
+    }
+    case W_ITER: {
+      if (mem && V % 2 == 0)
+        {
+          if (iter_pos_to_idx.empty())
+            {
+              C02_TRY(learn_iteration_order(tag + " first write through begin_all()"));
+              return after_write(op, tag + " first write through begin_all()");
+            }
+          std::size_t p = 0;
+          for (auto it = mem->begin_all(); it != mem->end_all(); ++it, ++p)
+            {
+              VF_CHECK(p < g.n, tag, ": iteration visits more than size_all() elements");
+              ref[iter_pos_to_idx[p]] = *it = value(rng);
+            }
+          VF_CHECK(p == g.n, tag, ": iteration visited ", p, " of ", g.n);
+          return after_write(op, tag + " write through begin_all()");
+        }
+      // fill_from: documented order (ProjData.h:265-279)
+      std::vector<float> flat(g.n);
+      std::size_t p = 0;
+      for (int kk = g.min_tof; kk <= g.max_tof; ++kk)
+        for (int s2 : standard_sequence(g))
+          for (int aa = g.minax(s2); aa <= g.maxax(s2); ++aa)
+            for (int vv = g.min_view; vv <= g.max_view; ++vv)
+              for (int tt = g.min_tang; tt <= g.max_tang; ++tt)
+                ref[g.idx(s2, aa, vv, tt, kk)] = flat[p++] = value(rng);
+      auto end = pd->fill_from(flat.begin());
+      VF_CHECK(end == flat.end(), tag, ": fill_from advanced the iterator by ", long(end - flat.begin()), " of ", g.n);
+      unflushed = false;
+      return after_write(op, tag + " fill_from(iterator)");
+    }
+    case W_ARITH: {
+      // in-place arithmetic re-reads and re-writes every segment (ProjData.cxx:560-632): needs readable float storage
+      if (!readable || !is_float_like() || (stream_backed && L.scale != 1.F))
+        return Result::pass();
+      static const float muls[] = { 2.F, 0.5F, -1.F, 1.F, 0.F, 3.F };
+      const int which = int(V % 4);
+      if (which == 0)
+        {
+          const float x = float(rng.range(-40, 40)) * 0.25F;
+          *pd += x;
+          for (auto& r : ref)
+            r += x;
+        }
+      else if (which == 1)
+        {
+          const float x = float(rng.range(-40, 40)) * 0.25F;
+          *pd -= x;
+          for (auto& r : ref)
+            r -= x;
+        }
+      else if (which == 2)
+        {
+          const float x = muls[rng.range(0, 5)];
+          *pd *= x;
+          for (auto& r : ref)
+            r *= x;
+        }
+      else
+        {
+          const float x = muls[rng.range(0, 2)];
+          *pd /= x;
+          for (auto& r : ref)
+            r /= x;
+        }
+      // keep magnitudes bounded so that long histories cannot overflow to inf
+      float mx = 0;
+      for (auto r : ref)
+        mx = std::max(mx, std::fabs(r));
+      if (mx > 1e20F)
+        {
+          pd->fill(1.F);
+          std::fill(ref.begin(), ref.end(), 1.F);
+        }
+      unflushed = false;
+      return after_write(op, vf::cat(tag, " in-place arithmetic kind ", which));
+    }
+    // ------------------------------------------------------------------ reads of one piece
+    case R_BIN:
+    case R_VIEWGRAM:
+    case R_SINOGRAM:
+    case R_SEG_VIEW:
+    case R_SEG_SINO:
+    case R_RELATED:
+    case R_SUBSET:
+    case R_ITER:
+    case R_ALL: {
+      ProjData* r = reader();
+      if (!r)
+        return Result::pass();
+      if (code == R_ALL)
+        return compare_all(op[7].get<int>(), tag + " explicit full read");
+      if (code == R_SUBSET)
+        return op_subset(*r, op, tag);
+      if (code == R_ITER)
+        return compare_all((V % 2 ? P_ITER : P_COPY_TO) + N_PATHS, tag + " iteration read");
+      if (code == R_BIN)
+        {
+          const float x = get_bin(*r, Bin(s, v, a, t, k));
+          VF_CHECK(x == ref[g.idx(s, a, v, t, k)], tag, " get_bin_value", g.name(s, a, v, t, k), " = ", x, ", reference ", ref[g.idx(s, a, v, t, k)]);
+          return Result::pass();
+        }
+      if (code == R_VIEWGRAM)
+        {
+          const Viewgram<float> vw = r->get_viewgram(v, s, false, k);
+          for (int aa = g.minax(s); aa <= g.maxax(s); ++aa)
+            for (int tt = g.min_tang; tt <= g.max_tang; ++tt)
+              VF_CHECK(vw[aa][tt] == ref[g.idx(s, aa, v, tt, k)], tag, " get_viewgram: bin ", g.name(s, aa, v, tt, k), " = ", vw[aa][tt],
+                       ", reference ", ref[g.idx(s, aa, v, tt, k)]);
+          return Result::pass();
+        }
+      if (code == R_SINOGRAM)
+        {
+          const Sinogram<float> sn = r->get_sinogram(a, s, false, k);
+          for (int vv = g.min_view; vv <= g.max_view; ++vv)
+            for (int tt = g.min_tang; tt <= g.max_tang; ++tt)
+              VF_CHECK(sn[vv][tt] == ref[g.idx(s, a, vv, tt, k)], tag, " get_sinogram: bin ", g.name(s, a, vv, tt, k), " = ", sn[vv][tt],
+                       ", reference ", ref[g.idx(s, a, vv, tt, k)]);
+          return Result::pass();
+        }
+      if (code == R_SEG_VIEW || code == R_SEG_SINO)
+        {
+          const SegmentByView<float> sv = code == R_SEG_VIEW ? r->get_segment_by_view(s, k) : SegmentByView<float>(r->get_segment_by_sinogram(s, k));
+          const SegmentBySinogram<float> ssn = code == R_SEG_SINO ? r->get_segment_by_sinogram(s, k) : SegmentBySinogram<float>(sv);
+          // (the other one is the library's transposition of the one that was read: both must show the reference)
+          for (int aa = g.minax(s); aa <= g.maxax(s); ++aa)
+            for (int vv = g.min_view; vv <= g.max_view; ++vv)
+              for (int tt = g.min_tang; tt <= g.max_tang; ++tt)
+                {
+                  const float x = ref[g.idx(s, aa, vv, tt, k)];
+                  VF_CHECK(sv[vv][aa][tt] == x && ssn[aa][vv][tt] == x, tag, " segment read: bin ", g.name(s, aa, vv, tt, k), " by view ",
+                           sv[vv][aa][tt], " by sinogram ", ssn[aa][vv][tt], ", reference ", x);
+                }
+          return Result::pass();
+        }
+      // R_RELATED
+      {
+        ViewgramIndices basic(v, s, k);
+        symm->find_basic_view_segment_numbers(basic);
+        basic.timing_pos_num() = k;
+        // N2 (notes; lead L5): the defaulted 4th argument timing_pos=0 overrides the TOF index of the ViewgramIndices
+        const bool defaulted = V % 2 == 1;
+        if (defaulted && k != 0 && !no_exclude())
+          {
+            vf::stats().excluded_known++;
+            vf::stats().count("excluded N2: get_related_viewgrams(indices with TOF index != 0) with defaulted timing_pos");
+            return Result::pass();
+          }
+        const RelatedViewgrams<float> rv = defaulted ? r->get_related_viewgrams(basic, symm) : r->get_related_viewgrams(basic, symm, false, k);
+        bool has_requested = false;
+        for (auto it = rv.begin(); it != rv.end(); ++it)
+          {
+            const int vv = it->get_view_num(), sv = it->get_segment_num(), kv = it->get_timing_pos_num();
+            VF_CHECK(kv == k, tag, " get_related_viewgrams for indices (view=", basic.view_num(), ",seg=", basic.segment_num(), ",tof=", k,
+                     ") returns a viewgram for TOF index ", kv);
+            has_requested = has_requested || (vv == v && sv == s);
+            for (int aa = g.minax(sv); aa <= g.maxax(sv); ++aa)
+              for (int tt = g.min_tang; tt <= g.max_tang; ++tt)
+                VF_CHECK((*it)[aa][tt] == ref[g.idx(sv, aa, vv, tt, kv)], tag, " get_related_viewgrams: bin ", g.name(sv, aa, vv, tt, kv), " = ",
+                         (*it)[aa][tt], ", reference ", ref[g.idx(sv, aa, vv, tt, kv)]);
+          }
+        VF_CHECK(has_requested, tag, " the related set of the basic viewgram of (view=", v, ",seg=", s, ") does not contain it");
+        return Result::pass();
+      }
+    }
+    case E_OOB:
+      return op_oob(op, tag);
+    case H_HEADER:
+      return op_header(tag, op[7].get<int>());
+    case H_WRITE_TO_FILE:
+      return op_write_to_file(tag, op[7].get<int>());
+    default:
+      return Result::pass(); // unknown codes are no-ops (keeps every mutated sequence valid)
+    }
+}
+
+Result
+Run::op_subset(ProjData& r, const json& op, const std::string& tag)
+{
+  const Geo& g = geo();
+  // distinct views in a generated order (ProjDataInfoSubsetByView.cxx:39-65: non-empty, in range, unique)
+  vf::SplitMix rng(uint64_t(op[6].get<long>()) * 31ULL + 5ULL);
+  std::vector<int> all;
+  for (int v = 0; v < g.nviews(); ++v)
+    all.push_back(v);
+  for (std::size_t i = all.size(); i > 1; --i)
+    std::swap(all[i - 1], all[std::size_t(rng.range(0, long(i) - 1))]);
+  const std::size_t nv = 1 + std::size_t(op[3].get<long>() % g.nviews());
+  std::vector<int> views(all.begin(), all.begin() + std::ptrdiff_t(nv));
+  if (g.min_view != 0)
+    return Result::pass();
+  unique_ptr<ProjDataInMemory> sub = r.get_subset(views);
+  VF_CHECK(sub->get_num_views() == int(nv), tag, " get_subset: ", sub->get_num_views(), " views, asked for ", nv);
+  VF_CHECK(sub->get_min_segment_num() == g.min_seg && sub->get_max_segment_num() == g.max_seg && sub->get_min_tof_pos_num() == g.min_tof
+               && sub->get_max_tof_pos_num() == g.max_tof && sub->get_min_tangential_pos_num() == g.min_tang
+               && sub->get_max_tangential_pos_num() == g.max_tang,
+           tag, " get_subset: index ranges differ from the full data");
+  for (int k = g.min_tof; k <= g.max_tof; ++k)
+    for (int s = g.min_seg; s <= g.max_seg; ++s)
+      for (std::size_t i = 0; i < nv; ++i)
+        {
+          const Viewgram<float> vw = sub->get_viewgram(int(i), s, false, k);
+          for (int a = g.minax(s); a <= g.maxax(s); ++a)
+            for (int t = g.min_tang; t <= g.max_tang; ++t)
+              VF_CHECK(vw[a][t] == ref[g.idx(s, a, views[i], t, k)], tag, " get_subset: subset view ", i, " (= view ", views[i], ") bin ",
+                       g.name(s, a, views[i], t, k), " = ", vw[a][t], ", reference ", ref[g.idx(s, a, views[i], t, k)]);
+        }
+  return Result::pass();
+}
+
+// ---- out-of-range requests ---------------------------------------------------------------------------
+// One index one step outside its range, through each path that takes that index.  Decided with asserts off
+// (what a Release build does, DESIGN.md 2.3): the request must be reported (std::exception from error()/at(), or
+// Succeeded::no from the set_* functions that return a status) and the data must be unchanged afterwards.
+enum OobKind
+{
+  K_SEG = 0,
+  K_AX = 1,
+  K_VIEW = 2,
+  K_TANG = 3,
+  K_TOF = 4
+};
+const char* const kind_names[] = { "segment", "axial position", "view", "tangential position", "TOF index" };
+
+struct AssertsOff
+{
+  AssertsOff() { stir_verif::asserts_on = false; }
+  ~AssertsOff() { stir_verif::asserts_on = true; }
+};
+
+Result
+Run::op_oob(const json& op, const std::string& tag)
+{
+  const Geo& g = geo();
+  static const std::vector<std::vector<int>> kinds_of_path = {
+    { K_SEG, K_AX, K_VIEW, K_TANG, K_TOF }, // 0 get_bin_value
+    { K_SEG, K_AX, K_VIEW, K_TANG, K_TOF }, // 1 set_bin_value
+    { K_SEG, K_VIEW, K_TOF },               // 2 get_viewgram
+    { K_SEG, K_AX, K_TOF },                 // 3 get_sinogram
+    { K_SEG, K_TOF },                       // 4 get_segment_by_view
+    { K_SEG, K_TOF },                       // 5 get_segment_by_sinogram
+    { K_SEG, K_VIEW, K_TOF },               // 6 get_related_viewgrams (trivial symmetries)
+    { K_VIEW, K_TOF },                      // 7 set_viewgram   (a viewgram/sinogram object for a segment outside the
+    { K_AX, K_TOF },                        // 8 set_sinogram    info cannot be constructed at all)
+    { K_TOF, K_SEG },                       // 9 set_segment (segment outside: built from the untrimmed info when there is one)
+  };
+  static const char* const pnames[] = { "get_bin_value", "set_bin_value", "get_viewgram", "get_sinogram", "get_segment_by_view",
+                                        "get_segment_by_sinogram", "get_related_viewgrams", "set_viewgram", "set_sinogram", "set_segment" };
+  const long V = op[6].get<long>();
+  const int path = int(V % 10);
+  const auto& kl = kinds_of_path[std::size_t(path)];
+  int kind = kl[std::size_t((V / 10) % long(kl.size()))];
+  const bool above = (V / 100) % 2 == 1;
+  int s = g.min_seg + int(op[1].get<long>() % g.nseg());
+  int a = g.minax(s) + int(op[2].get<long>() % g.nax(s));
+  int v = g.min_view + int(op[3].get<long>() % g.nviews());
+  int t = g.min_tang + int(op[4].get<long>() % g.ntang());
+  int k = g.min_tof + int(op[5].get<long>() % g.ntof());
+  const bool is_read_path = path == 0 || (path >= 2 && path <= 6);
+  if (is_read_path && !readable)
+    return Result::pass();
+
+  shared_ptr<ProjDataInfo> bigger; // for set_segment with a segment number outside
+  if (path == 9 && kind == K_SEG)
+    {
+      json j = c["pdi"];
+      if (j["trim"].contains("max_seg"))
+        j["trim"]["max_seg"] = 1000;
+      bigger = vg::make_pdi(scanner, j);
+      if (bigger->get_max_segment_num() <= g.max_seg || bigger->get_min_segment_num() >= g.min_seg)
+        kind = K_TOF;
+    }
+  switch (kind)
+    {
+    case K_SEG:
+      s = above ? g.max_seg + 1 : g.min_seg - 1;
+      break;
+    case K_AX:
+      a = above ? g.maxax(s) + 1 : g.minax(s) - 1;
+      break;
+    case K_VIEW:
+      v = above ? g.max_view + 1 : g.min_view - 1;
+      break;
+    case K_TANG:
+      t = above ? g.max_tang + 1 : g.min_tang - 1;
+      break;
+    default:
+      k = above ? g.max_tof + 1 : g.min_tof - 1;
+      break;
+    }
+  const std::string what = vf::cat(tag, " ", pnames[path], " with ", kind_names[kind], " one step ", above ? "above" : "below", " the range: ",
+                                   "(seg=", s, ",ax=", a, ",view=", v, ",tang=", t, ",tof=", k, ") on ", backing_names[backing]);
+  // L2 (notes): view and tangential position are not range-checked in get_index()/get_offset()
+  if ((kind == K_VIEW || kind == K_TANG) && !no_exclude())
+    {
+      vf::stats().excluded_known++;
+      vf::stats().count("excluded L2: out-of-range view/tangential position");
+      return Result::pass();
+    }
+  // N3 (notes): the segment number is used to index the per-segment arrays of ProjDataInfo before any range test
+  // when a viewgram/sinogram/segment object is built for it (paths other than the bin paths)
+  if (kind == K_SEG && path >= 2 && path <= 6 && !no_exclude())
+    {
+      vf::stats().excluded_known++;
+      vf::stats().count("excluded N3: out-of-range segment through viewgram/sinogram/segment getters");
+      return Result::pass();
+    }
+  vf::stats().count(vf::cat("out-of-range requests: ", pnames[path], " / ", kind_names[kind]));
+
+  bool reported = false;
+  std::string how;
+  {
+    AssertsOff off;
+    try
+      {
+        Succeeded st = Succeeded::yes;
+        switch (path)
+          {
+          case 0:
+            (void)get_bin(*pd, Bin(s, v, a, t, k));
+            break;
+          case 1:
+            set_bin(Bin(s, v, a, t, k, 12345.F));
+            break;
+          case 2:
+            (void)pd->get_viewgram(v, s, false, k);
+            break;
+          case 3:
+            (void)pd->get_sinogram(a, s, false, k);
+            break;
+          case 4:
+            (void)pd->get_segment_by_view(s, k);
+            break;
+          case 5:
+            (void)pd->get_segment_by_sinogram(s, k);
+            break;
+          case 6: {
+            shared_ptr<DataSymmetriesForViewSegmentNumbers> triv(new TrivialDataSymmetriesForViewSegmentNumbers);
+            (void)pd->get_related_viewgrams(ViewgramIndices(v, s, k), triv, false, k);
+            break;
+          }
+          case 7: {
+            Viewgram<float> vw(pdi, ViewgramIndices(v, s, k));
+            vw.fill(12345.F);
+            st = pd->set_viewgram(vw);
+            break;
+          }
+          case 8: {
+            Sinogram<float> sn(pdi, SinogramIndices(a, s, k));
+            sn.fill(12345.F);
+            st = pd->set_sinogram(sn);
+            break;
+          }
+          default: {
+            const shared_ptr<ProjDataInfo>& info = kind == K_SEG ? bigger : pdi;
+            if (V % 2)
+              {
+                SegmentByView<float> sg(info, SegmentIndices(s, k));
+                sg.fill(12345.F);
+                st = pd->set_segment(sg);
+              }
+            else
+              {
+                SegmentBySinogram<float> sg(info, SegmentIndices(s, k));
+                sg.fill(12345.F);
+                st = pd->set_segment(sg);
+              }
+            break;
+          }
+          }
+        if (st == Succeeded::no)
+          {
+            reported = true;
+            how = "Succeeded::no";
+          }
+      }
+    catch (const std::exception& e)
+      {
+        reported = true;
+        how = e.what();
+      }
+  }
+  if (!reported)
+    return Result::fail(what + ": the request was NOT reported as an error (no exception, no Succeeded::no)");
+  if (path == 1 || path >= 7)
+    unflushed = unflushed; // nothing may have been written
+  // the data must be unchanged: raw bytes and a full read-back
+  C02_TRY(check_bytes(what + " [reported: " + how.substr(0, 60) + "] afterwards"));
+  return compare_all(op[7].get<int>(), what + " [reported] afterwards");
+}
+
+// ---- header round trips ------------------------------------------------------------------------------
+Result
+compare_info(const ProjDataInfo& a, const ProjDataInfo& b, const std::string& where)
+{
+  const Geo ga(a), gb(b);
+  VF_CHECK(ga.min_seg == gb.min_seg && ga.max_seg == gb.max_seg, where, ": segment range ", gb.min_seg, "..", gb.max_seg, " expected ", ga.min_seg,
+           "..", ga.max_seg);
+  VF_CHECK(ga.min_ax == gb.min_ax && ga.max_ax == gb.max_ax, where, ": axial position ranges per segment differ");
+  VF_CHECK(ga.min_view == gb.min_view && ga.max_view == gb.max_view, where, ": view range differs");
+  VF_CHECK(ga.min_tang == gb.min_tang && ga.max_tang == gb.max_tang, where, ": tangential range ", gb.min_tang, "..", gb.max_tang, " expected ",
+           ga.min_tang, "..", ga.max_tang);
+  VF_CHECK(ga.min_tof == gb.min_tof && ga.max_tof == gb.max_tof && a.get_tof_mash_factor() == b.get_tof_mash_factor(), where,
+           ": TOF range/mashing differs");
+  VF_CHECK(typeid(a) == typeid(b), where, ": ProjDataInfo type ", typeid(b).name(), " expected ", typeid(a).name());
+  const auto* ca = dynamic_cast<const ProjDataInfoCylindrical*>(&a);
+  const auto* cb = dynamic_cast<const ProjDataInfoCylindrical*>(&b);
+  if (ca && cb)
+    for (int s = ga.min_seg; s <= ga.max_seg; ++s)
+      VF_CHECK(ca->get_min_ring_difference(s) == cb->get_min_ring_difference(s) && ca->get_max_ring_difference(s) == cb->get_max_ring_difference(s),
+               where, ": ring differences of segment ", s, " are ", cb->get_min_ring_difference(s), "..", cb->get_max_ring_difference(s),
+               " expected ", ca->get_min_ring_difference(s), "..", ca->get_max_ring_difference(s));
+  // sampling of the first and last bin (6 significant digits in the header)
+  const Bin b0(ga.min_seg, ga.min_view, ga.minax(ga.min_seg), ga.min_tang, ga.min_tof), b1(ga.max_seg, ga.max_view, ga.maxax(ga.max_seg), ga.max_tang, ga.max_tof);
+  for (const Bin& bb : { b0, b1 })
+    {
+      const double sc = std::fabs(a.get_s(b1)) + std::fabs(a.get_t(b1)) + 1.;
+      VF_CHECK(std::fabs(a.get_s(bb) - b.get_s(bb)) <= 2e-5 * sc && std::fabs(a.get_t(bb) - b.get_t(bb)) <= 2e-5 * sc
+                   && std::fabs(a.get_phi(bb) - b.get_phi(bb)) <= 2e-5 && std::fabs(a.get_tantheta(bb) - b.get_tantheta(bb)) <= 2e-5,
+               where, ": coordinates (s,t,phi,tantheta) of a corner bin differ: ", a.get_s(bb), ",", a.get_t(bb), ",", a.get_phi(bb), ",",
+               a.get_tantheta(bb), " vs ", b.get_s(bb), ",", b.get_t(bb), ",", b.get_phi(bb), ",", b.get_tantheta(bb));
+      vf::stats().maxi("max rel |s,t| difference after header round trip",
+                       std::max(std::fabs(a.get_s(bb) - b.get_s(bb)), std::fabs(a.get_t(bb) - b.get_t(bb))) / sc);
+    }
+  VF_CHECK(a == b, where, ": ProjDataInfo::operator== says the geometry read back differs:\n", a.parameter_info(), "\n--- read back ---\n",
+           b.parameter_info());
+  return Result::pass();
+}
+
+Result
+Run::op_header(const std::string& tag, int sel)
+{
+  if (!has_header || unflushed)
+    return Result::pass();
+  const Geo& g = geo();
+  shared_ptr<ProjData> rd = ProjData::read_from_file(header_path);
+  VF_CHECK(!is_null_ptr(rd), tag, " read_from_file returned null");
+  const std::string where = tag + " header round trip";
+  C02_TRY(compare_info(*pdi, *rd->get_proj_data_info_sptr(), where));
+  C02_TRY(compare_exam(*exam, rd->get_exam_info(), where));
+  const ProjDataFromStream* f = dynamic_cast<const ProjDataFromStream*>(rd.get());
+  VF_CHECK(f != nullptr, where, ": not a ProjDataFromStream");
+  const bool tof = g.ntof() > 1;
+  const ProjDataFromStream::StorageOrder want = tof ? ProjDataFromStream::Timing_Segment_View_AxialPos_TangPos : stir_order();
+  VF_CHECK(f->get_storage_order() == want, where, ": storage order ", int(f->get_storage_order()), " expected ", int(want));
+  VF_CHECK(f->get_segment_sequence_in_stream() == L.seq, where, ": segment sequence in stream differs");
+  VF_CHECK(f->get_data_type_in_stream() == NumericType(L.td().id), where, ": number type differs");
+  VF_CHECK(f->get_byte_order_in_stream() == ByteOrder(L.big_endian ? ByteOrder::big_endian : ByteOrder::little_endian), where, ": byte order differs");
+  VF_CHECK(f->get_offset_in_stream() == std::streamoff(L.offset), where, ": offset ", long(f->get_offset_in_stream()), " expected ", L.offset);
+  VF_CHECK(rel_close(f->get_scale_factor(), L.scale, 1e-5), where, ": scale factor ", f->get_scale_factor(), " expected ", L.scale);
+  std::vector<float> got;
+  C02_TRY(read_all(*rd, sel % N_PATHS, got, where));
+  for (std::size_t i = 0; i < g.n; ++i)
+    VF_CHECK(got[i] == ref[i], where, ": values differ at reference index ", i, ": ", got[i], " vs ", ref[i]);
+  vf::stats().count("header round trips");
+  return Result::pass();
+}
+
+Result
+Run::op_write_to_file(const std::string& tag, int sel)
+{
+  const Geo& g = geo();
+  shared_ptr<ProjData> src = pd;
+  if (!readable)
+    {
+      if (!can_second_reader())
+        return Result::pass();
+      src = second_reader();
+    }
+  const std::string stem = tmp.make("wtf");
+  tmp.track(stem + ".hs");
+  tmp.track(stem + ".s");
+  VF_CHECK(src->write_to_file(stem) == Succeeded::yes, tag, " write_to_file returned Succeeded::no");
+  shared_ptr<ProjData> rd = ProjData::read_from_file(stem + ".hs");
+  VF_CHECK(!is_null_ptr(rd), tag, " read_from_file returned null");
+  const std::string where = tag + " write_to_file + read_from_file";
+  C02_TRY(compare_info(*pdi, *rd->get_proj_data_info_sptr(), where));
+  C02_TRY(compare_exam(*exam, rd->get_exam_info(), where));
+  std::vector<float> got;
+  C02_TRY(read_all(*rd, sel % N_PATHS, got, where));
+  for (std::size_t i = 0; i < g.n; ++i)
+    VF_CHECK(got[i] == ref[i], where, ": values differ at reference index ", i, ": ", got[i], " vs ", ref[i]);
+  vf::stats().count("write_to_file round trips");
+  return Result::pass();
+}
+
+// ---- the property -----------------------------------------------------------------------------------
+bool nontrivial(const json& c);
+
+Result
+check(const json& c)
+{
+  Run run(c);
+  Result r = run.setup();
+  if (r.kind != Result::PASS)
+    return r;
+  const Geo& g = run.geo();
+  auto& st = vf::stats();
+  st.cls(std::string("backing: ") + backing_names[run.backing]);
+  st.cls(g.ntof() > 1 ? "TOF" : "non-TOF");
+  if (run.stream_backed)
+    {
+      st.cls(run.L.order == 0 ? "order Segment_View_AxialPos_TangPos" : "order Segment_AxialPos_View_TangPos");
+      st.cls(std::string("type ") + run.L.td().name);
+      st.cls(run.L.big_endian ? "big endian" : "little endian");
+      if (run.L.seq != segment_sequence(g, 0))
+        st.cls("permuted segment sequence");
+      if (run.L.offset > 0)
+        st.cls("stream offset > 0");
+      if (run.L.scale != 1.F)
+        st.cls("scale factor != 1");
+    }
+  {
+    bool unequal = false;
+    for (int s = g.min_seg; s <= g.max_seg; ++s)
+      unequal = unequal || g.nax(s) != g.nax(g.min_seg);
+    if (unequal)
+      st.cls("unequal axial counts per segment");
+    if (g.nseg() > 1)
+      st.cls("more than one segment");
+    if (run.symm_is_pet)
+      st.cls("PET symmetries for related viewgrams");
+    if (dynamic_cast<const ProjDataInfoCylindricalArcCorr*>(run.pdi.get()))
+      st.cls("arc-corrected");
+    if (run.scanner->get_scanner_geometry() != "Cylindrical")
+      st.cls("BlocksOnCylindrical");
+  }
+  st.maxi("max bins per data set", double(g.n));
+  const json& ops = c["ops"];
+  for (std::size_t i = 0; i < ops.size(); ++i)
+    {
+      r = run.run_op(ops[i], i);
+      if (r.kind != Result::PASS)
+        return r;
+    }
+  // end of history: everything once more through the raw bytes and one path
+  r = run.check_bytes("end of history");
+  if (r.kind != Result::PASS)
+    return r;
+  return run.compare_all(int(c["seed"].get<uint64_t>() % (3 * N_PATHS)), "end of history");
+}
+
+// ---- generator -------------------------------------------------------------------------------------
+json
+gen_exam(Src& s)
+{
+  json e;
+  e["orient"] = int(s.range(0, 3));
+  e["rot"] = int(s.range(0, 3));
+  if (s.coin())
+    e["frame"] = { double(s.range(0, 4000)) * 0.5, double(s.range(1, 7200)) * 0.25 };
+  else
+    e["frame"] = nullptr;
+  if (s.coin())
+    {
+      const int lo = int(s.range(100, 500));
+      e["energy"] = { lo, lo + int(s.range(50, 300)) };
+    }
+  else
+    e["energy"] = nullptr;
+  e["nuclide"] = int(s.range(0, 1));
+  return e;
+}
+
+json
+gen(Src& s, int size)
+{
+  json c;
+  vg::ScannerOpts so;
+  so.max_ndet = size < 40 ? 12 : 24;
+  so.max_rings = size < 40 ? 3 : 4;
+  so.allow_blocks = true;
+  so.allow_predefined = false;
+  c["scanner"] = vg::gen_scanner(s, so);
+  shared_ptr<Scanner> sc = vg::make_scanner(c["scanner"]);
+  vg::PdiOpts po;
+  po.allow_arccorr = true;
+  po.max_span = 7;
+  c["pdi"] = vg::gen_pdi(s, *sc, po);
+  // not more than ~3000 bins (DESIGN C02 bounds): fewer tangential positions first, then fewer segments
+  for (int guard = 0; guard < 40; ++guard)
+    {
+      std::size_t n = 0;
+      int max_seg = 0;
+      try
+        {
+          shared_ptr<ProjDataInfo> p = vg::make_pdi(sc, c["pdi"]);
+          n = Geo(*p).n;
+          max_seg = p->get_max_segment_num();
+        }
+      catch (const std::exception&)
+        {
+          break; // rejected in check()
+        }
+      if (n <= 3000)
+        break;
+      if (c["pdi"]["tang"].get<int>() > 3)
+        c["pdi"]["tang"] = std::max(2, c["pdi"]["tang"].get<int>() / 2);
+      else if (max_seg > 0)
+        {
+          c["pdi"]["trim"]["max_seg"] = max_seg - 1;
+          if (!c["pdi"]["trim"].contains("tang_cut"))
+            c["pdi"]["trim"]["tang_cut"] = 0;
+        }
+      else
+        break;
+    }
+  const bool tof = c["pdi"]["tof_mash"].get<int>() > 0;
+  const int backing = int(s.pick(std::vector<int>{ B_MEM, B_MEM, B_SSTREAM, B_SSTREAM, B_FSTREAM, B_FSTREAM, B_INTERFILE_RW, B_INTERFILE_RW, B_INTERFILE_WO }));
+  c["backing"] = backing;
+  int order = int(s.range(0, 1));
+  // TOF + Segment_AxialPos_View_TangPos cannot get a header (clean rejection, interfile.cxx:1246): generated rarely for Interfile
+  if (tof && order == 1 && backing >= B_INTERFILE_RW && !s.chance(1, 6))
+    order = 0;
+  c["order"] = order;
+  c["perm"] = s.chance(1, 4) ? 0L : (s.chance(1, 4) ? 1L : s.range(2, 100000));
+  // number type: float most often, then each of the others
+  c["type"] = s.chance(1, 3) ? 0 : int(s.range(0, long(c02::types().size()) - 1));
+  c["big_endian"] = s.coin();
+  {
+    const auto& td = c02::types()[std::size_t(c["type"].get<int>())];
+    if (td.id == NumericType::FLOAT)
+      c["scale"] = 1.;
+    else if (td.id == NumericType::DOUBLE)
+      c["scale"] = s.pick(std::vector<double>{ 1., 1., 0.5, 4. }); // powers of two: v/s*s is exact in float
+    else
+      c["scale"] = s.pick(std::vector<double>{ 1., 1., 1., 0.5, 0.1, 2., 0.25, 3. }); // 6-digit numbers: survive the header
+  }
+  c["offset"] = s.pick(std::vector<long>{ 0, 0, 1, 7, 16, 100 });
+  if (backing == B_MEM)
+    { // layout parameters do not exist for in-memory data
+      c["order"] = 0;
+      c["perm"] = 1;
+      c["type"] = 0;
+      c["big_endian"] = false;
+      c["scale"] = 1.;
+      c["offset"] = 0;
+    }
+  if (backing >= B_INTERFILE_RW)
+    c["offset"] = 0;
+  c["exam"] = gen_exam(s);
+  c["sym"] = int(s.range(0, 1));
+  vg::ImageOpts io;
+  io.max_xy = 7;
+  c["image"] = vg::gen_image(s, io);
+  c["seed"] = s.seed64();
+  const bool n1_excluded = !no_exclude() && backing != B_MEM && c["scale"].get<double>() != 1.;
+  const long nops = s.range(5, 5 + long(size) * 35 / 100);
+  // weights: writes dominate; every write is followed by a full read-back through the path in op[7]
+  static const std::vector<int> codes = { W_BIN,      W_BIN,      W_BIN,     W_VIEWGRAM, W_VIEWGRAM, W_SINOGRAM,  W_SINOGRAM, W_SEG_VIEW, W_SEG_SINO,
+                                          W_RELATED,  W_RELATED,  W_FILL_VALUE, W_FILL_OTHER, W_ITER,  W_ARITH,     R_BIN,      R_VIEWGRAM, R_SINOGRAM,
+                                          R_SEG_VIEW, R_SEG_SINO, R_RELATED, R_SUBSET,   R_ITER,     R_ALL,       E_OOB,      E_OOB,      E_OOB,
+                                          E_OOB,      H_HEADER,   H_WRITE_TO_FILE };
+  json ops = json::array();
+  for (long i = 0; i < nops; ++i)
+    {
+      int code = s.pick(codes);
+      if (code == W_BIN && n1_excluded)
+        code = W_VIEWGRAM;
+      long v = s.range(0, 999);
+      if (code == E_OOB && !no_exclude())
+        { // steer away from the excluded classes (L2: view/tangential; N3: segment through the object getters) so that
+          // the remaining out-of-range requests keep their share; the interpreter skips excluded ones anyway
+          for (int tries = 0; tries < 8; ++tries)
+            {
+              const int path = int(v % 10);
+              static const std::vector<std::vector<int>> kl = { { 0, 1, 2, 3, 4 }, { 0, 1, 2, 3, 4 }, { 0, 2, 4 }, { 0, 1, 4 }, { 0, 4 },
+                                                                { 0, 4 },          { 0, 2, 4 },       { 2, 4 },    { 1, 4 },    { 4, 0 } };
+              const int kind = kl[std::size_t(path)][std::size_t((v / 10) % long(kl[std::size_t(path)].size()))];
+              const bool excl = kind == 2 || kind == 3 || (kind == 0 && path >= 2 && path <= 6);
+              if (!excl)
+                break;
+              v = s.range(0, 999);
+            }
+        }
+      ops.push_back({ code, s.range(0, 999), s.range(0, 999), s.range(0, 999), s.range(0, 999), s.range(0, 999), v, s.range(0, 47) });
+    }
+  c["ops"] = ops;
+  return c;
+}
+
+// families of access paths (for the non-trivial rule)
+int
+family_of_write(int code)
+{
+  return code; // W_BIN..W_ARITH are their own families
+}
+int
+family_of_path(int path)
+{
+  switch (path % N_PATHS)
+    {
+    case P_BIN:
+      return W_BIN;
+    case P_VIEWGRAM:
+      return W_VIEWGRAM;
+    case P_SINOGRAM:
+      return W_SINOGRAM;
+    case P_SEG_VIEW:
+      return W_SEG_VIEW;
+    case P_SEG_SINO:
+      return W_SEG_SINO;
+    case P_RELATED:
+      return W_RELATED;
+    default:
+      return W_ITER;
+    }
+}
+
+// DESIGN C02: >= 2 different write paths, >= 1 read through a path other than the last write path, and a
+// non-default layout component (permuted sequence, other storage order, non-float type, offset, TOF)
+bool
+nontrivial(const json& c)
+{
+  std::set<int> wfam;
+  bool cross_read = false;
+  int last_write = -1;
+  for (auto& op : c["ops"])
+    {
+      const int code = op[0].get<int>();
+      if (code >= W_BIN && code <= W_ARITH)
+        {
+          wfam.insert(family_of_write(code));
+          last_write = family_of_write(code);
+          if (family_of_path(op[7].get<int>()) != last_write)
+            cross_read = true;
+        }
+      else if (code >= R_BIN && code <= R_ALL && last_write >= 0)
+        {
+          const int fam = code == R_ALL ? family_of_path(op[7].get<int>()) : code - 10;
+          if (fam != last_write)
+            cross_read = true;
+        }
+    }
+  const bool tof = c["pdi"]["tof_mash"].get<int>() > 0;
+  bool layout = tof;
+  if (c["backing"].get<int>() != B_MEM)
+    layout = layout || c["perm"].get<long>() != 0 || c["order"].get<int>() == 1 || c["type"].get<int>() != 0
+             || (c["offset"].get<long>() > 0 && c["backing"].get<int>() <= B_FSTREAM);
+  return wfam.size() >= 2 && cross_read && layout;
+}
+
+std::vector<json>
+fixed_cases(int)
+{
+  return {};
+}
+
+} // namespace
+
+const vf::Property&
+the_property()
+{
+  static vf::Property p;
+  p.id = "C02";
+  p.gen = gen;
+  p.check = check;
+  p.nontrivial = nontrivial;
+  p.shrink_lists = { "ops" };
+  return p;
+}
